@@ -4,6 +4,7 @@ import (
 	"context"
 	"fmt"
 	"os"
+	"strings"
 
 	metav1 "k8s.io/apimachinery/pkg/apis/meta/v1"
 	"k8s.io/apiserver/pkg/authentication/user"
@@ -29,6 +30,8 @@ var nearNames = []struct{ Name, Class string }{
 	{"S1", "case"},
 	{"s1 ", "trailing-space"},
 	{"\u017f1", "unicode-case"}, // LATIN SMALL LETTER LONG S: upper-cases / case-folds to "S1"
+	{"s1/x:%41", "odd-characters"},
+	{"s1" + strings.Repeat("x", 300), "300-chars"},
 }
 
 // kinds of configuration of one schema
@@ -98,6 +101,10 @@ func count(quick bool, q, t, race int) int {
 // limHandle is how a workload reaches the limiter of one cluster: get(name) is called once per request, exactly like
 // the dispatcher does (GetOrDefault per request), sync is the single-threaded reconfiguration entry point.
 type limHandle struct {
+	// flip toggles the cluster's limiter type local <-> remote (what a feature-gate / --rate-limiter change does through
+	// ResetLimiter). Without limiter client sets the remote mode falls back to the SAME local limiter, so a flip is a no-op
+	// for every slot count. nil when the handle cannot do it.
+	flip  func()
 	via   string
 	get   func(schema string) flowcontrol.FlowControl
 	sync  func(fc proxyv1alpha1.FlowControl)
@@ -108,7 +115,16 @@ type limHandle struct {
 func newDirect(cluster string) *limHandle {
 	ctx, cancel := context.WithCancel(context.Background())
 	l := flowcontrols.NewUpstreamLimiter(ctx, cluster, "", nil)
+	remote := false
 	return &limHandle{
+		flip: func() {
+			remote = !remote
+			if remote {
+				l.ResetLimiter("remote")
+			} else {
+				l.ResetLimiter("local")
+			}
+		},
 		via:  "NewUpstreamLimiter.GetOrDefault",
 		get:  l.GetOrDefault,
 		sync: l.Sync,
